@@ -95,6 +95,15 @@ def xferLoop (k : Int â†’ Option Int) (src dst : Buf) (shift : Nat) : List Nat â
 /-- `alignCapacity`: `cap - cap % channels` (no-op for zero channels) -/
 def alignCap (ch cap : Nat) : Nat := if ch = 0 then cap else cap - cap % ch
 
+/-- sequential stores `blk[start+j] := vals[j]` -/
+def storeList (h : Heap) (blk start : Nat) : List Int â†’ Heap
+  | [] => h
+  | v :: vs => storeList (store h blk start v) blk (start + 1) vs
+
+/-- the first `n` samples of a view, as `copy` reads them: all before anything is written -/
+def Buf.firstCells (h : Heap) (b : Buf) (n : Nat) : List Int :=
+  (List.range n).map fun j => (cell h b.blk (b.off + j)).getD 0
+
 /-- `Buffer.Append(src)`.  `self` says that `src` and `dst` are the same header (`b.Append(b)`);
 `g` is the capacity of the new backing array when the runtime has to grow (an input: Go's growth
 policy is a runtime detail; `g` is validated by `growOK`; `C03.grow_whole_frames_admissible` shows that
@@ -104,7 +113,7 @@ mustSame(dst.Channels(), src.Channels(), diffChannels)
 offset := dst.Len(); n := src.Len()
 if dst.Cap() < offset+n { grow := n completed to a whole frame; dst.data = append(dst.data, make([]D, grow)...)[:offset+n] }
 else { dst.data = dst.data[:offset+n] }
-for i := 0; i < n; i++ { dst.SetSample(i+offset, src.Sample(i)) }
+copy(dst.data[offset:], src.data[:n])      // memmove: the source samples are read before any is written
 alignCapacity(&dst.data, dst.Channels(), dst.Cap())
 ``` -/
 def Buf.append (h : Heap) (dst src : Buf) (self : Bool) (g : Nat) : Res Buf :=
@@ -119,8 +128,8 @@ def Buf.append (h : Heap) (dst src : Buf) (self : Bool) (g : Nat) : Res Buf :=
          { dst with blk := h.length, off := 0, len := offset + n, cap := g })
       else (h, { dst with len := offset + n })
     let src1 := if self then dst1 else src
-    (xferLoop some src1 dst1 offset (List.range n) h1).bind fun h2 _ =>
-      .ok h2 { dst1 with cap := alignCap dst1.ch dst1.cap }
+    .ok (storeList h1 dst1.blk (dst1.off + offset) (src1.firstCells h1 n))
+      { dst1 with cap := alignCap dst1.ch dst1.cap }
 
 /-- admissible growth capacities: what `append` + `alignCapacity` can deliver -/
 def growOK (dst src : Buf) (g : Nat) : Bool :=
@@ -139,11 +148,6 @@ def chanLength (b : Buf) : Nat := b.length
 def chanCapacity (b : Buf) : Nat := b.capacity
 
 /-! ## interleaved and striped readers / writers -/
-
-/-- sequential stores `blk[start+j] := vals[j]` -/
-def storeList (h : Heap) (blk start : Nat) : List Int â†’ Heap
-  | [] => h
-  | v :: vs => storeList (store h blk start v) blk (start + 1) vs
 
 /-- `Write(src []S, dst)`: `cv` is the Go conversion `D(x)` -/
 def write (cv : Int â†’ Option Int) (h : Heap) (src : List Int) (dst : Buf) : Res Nat :=
